@@ -651,7 +651,10 @@ pub fn main(a: Args) -> i32 {
     let hists: Vec<(Tree, Tree, Vec<Op>, &'static str)> = if let Some(p) = &a.replay {
         std::fs::read_to_string(p).unwrap().lines().filter(|l| !l.trim().is_empty() && !l.starts_with('#')).map(|l| { let (x, y, o) = parse_case(l); (x, y, o, "replay") }).collect()
     } else {
-        (0..n).map(|_| gen_history(&mut r, &pool, &paths)).collect()
+        // one history in three lives on names where byte order and path-component order disagree: siblings of the directory
+        // `d/` whose names are `d` followed by a byte below '/' (`d-y`, `d.x` sort BEFORE `d/h` as strings, AFTER it as paths)
+        let paths2 = ["d.x", "d-y", "d/h", "d/k"];
+        (0..n).map(|i| gen_history(&mut r, &pool, if i % 3 == 2 { &paths2 } else { &paths })).collect()
     };
     let mut nfail = 0u64;
     let mut distinct = std::collections::HashSet::new();
